@@ -27,7 +27,7 @@ SEEDS = [("vanilla_header", None), ("tbc_header", "tbc-header"), ("wrath_header"
 def floors_for(feats):
     n = 2  # pin salt, pin grid seed
     if "srp-default-math" in feats:
-        n += 3 + 1 + 2  # three key kinds + randomize_data + refresh on every path / frame
+        n += 3 + 2  # three key kinds + refresh on every path / frame (the in-place helper is optional)
     n += sum(2 for m, f in SEEDS if f is None or f in feats)  # default + new
     if "integrity" in feats:
         n += 1
@@ -70,11 +70,9 @@ def check(ctx, rep):
     if "srp-default-math" in F:
         for fn, what, w in SOURCES_SRP:
             check_ret_fresh(ctx, rep, fn, what, w)
-        # refresh in place
+        # refresh in place (helper is optional: the refresh itself is checked on the API function below)
         se = ctx.deep.run("key::ReconnectData::randomize_data")
-        if se is None:
-            rep.violation("fresh-source", "key::ReconnectData::randomize_data", "challenge refresh", "not found")
-        else:
+        if se is not None:
             eff = se.param_effects().get(1)
             ok, why = (False, "no write to self")
             if eff is not None:
